@@ -139,10 +139,33 @@ struct Model
 };
 
 // ---- scratch directory ---------------------------------------------------------
+inline void wipeDir(const std::string &dir);
+
+inline std::vector<std::string> &scratchDirs()
+{
+  static std::vector<std::string> *v = new std::vector<std::string>;
+  return *v;
+}
+inline void removeScratchDirs()
+{
+  for (auto &d : scratchDirs())
+  {
+    wipeDir(d);
+    ::rmdir(d.c_str());
+  }
+}
+
+/// Private scratch directory <base>/<tag>_<pid>, emptied and removed at process exit.
+/// base = $TMPDIR if set; else /dev/shm/wk_C11/cases when /dev/shm is a writable tmpfs
+/// (file churn there is ~3x cheaper than on the disk-backed /tmp and never touches the
+/// disk); else /tmp/wk_C11/cases.
 inline std::string scratchBase(const char *tag)
 {
   const char *t = std::getenv("TMPDIR");
-  std::string base = (t && *t) ? std::string(t) : std::string("/tmp/wk_C11/cases");
+  std::string base;
+  if (t && *t) base = t;
+  else if (::access("/dev/shm", W_OK | X_OK) == 0) base = "/dev/shm/wk_C11/cases";
+  else base = "/tmp/wk_C11/cases";
   std::string d = base + "/" + tag + "_" + std::to_string(static_cast<long>(getpid()));
   // mkdir -p
   std::string cur;
@@ -154,6 +177,8 @@ inline std::string scratchBase(const char *tag)
     }
     if (i < d.size()) cur += d[i];
   }
+  if (scratchDirs().empty()) std::atexit(removeScratchDirs);
+  scratchDirs().push_back(d);
   return d;
 }
 
